@@ -20,6 +20,7 @@ class AioRunner:
         self.created = []
         self.key_of = {}
         self.events = []
+        self.trace = []      # chronological: ("S", key) coroutine started, ("D", key) job deleted (returned)
         self.tasks = []
         self.handler_calls = []
         self.handler = _CountHandler()
@@ -41,6 +42,7 @@ class AioRunner:
             script = runs[n] if n < len(runs) else (runs[-1] if runs else {"acts": [], "raises": False})
             due = inst_of(job.datetime)
             runner.events.append((CLOCK.instant, key, "S", due))
+            runner.trace.append(("S", key))
             try:
                 for a in script.get("acts", []):
                     if a[0] == "sl":
@@ -48,10 +50,15 @@ class AioRunner:
                     elif a[0] == "ad":
                         try:
                             runner.sched.delete_job(runner.created[a[1]])
+                            runner.trace.append(("D", a[1]))
                         except Exception as e:  # noqa: BLE001
                             runner.cop_errors.append(err_kind(e))
                     elif a[0] == "at":
+                        before = set(runner.key_of[id(j)] for j in runner.sched.jobs)
                         runner.sched.delete_jobs(py_tags(a[2], "set"), bool(a[1]))
+                        after = set(runner.key_of[id(j)] for j in runner.sched.jobs)
+                        for kk in sorted(before - after):
+                            runner.trace.append(("D", kk))
                     elif a[0] == "as":
                         runner.do_sched(a[1], [runner.dflt])
             except asyncio.CancelledError:
@@ -138,6 +145,7 @@ class AioRunner:
                         await asyncio.sleep(0)
                     obs["res"] = ("u",)
                 elif k == "del":
+                    deleted_key = o["key"]
                     if o["key"] < len(self.created):
                         target = self.created[o["key"]]
                     else:
@@ -151,9 +159,13 @@ class AioRunner:
                         target = other.cyclic(_dt.timedelta(days=400), _noop)
                         other.delete_jobs()
                     self.sched.delete_job(target)
+                    self.trace.append(("D", deleted_key))
                     obs["res"] = ("u",)
                 elif k == "dtags":
+                    before = set(self.key_of[id(j)] for j in self.sched.jobs)
                     obs["res"] = ("c", self.sched.delete_jobs(py_tags(o.get("tags"), "set"), bool(o.get("any", False))))
+                    for kk in sorted(before - set(self.key_of[id(j)] for j in self.sched.jobs)):
+                        self.trace.append(("D", kk))
                 elif k == "get":
                     r = self.sched.get_jobs(py_tags(o.get("tags"), "set"), bool(o.get("any", False)))
                     obs["res"] = ("s", sorted(self.key_of[id(j)] for j in r))
@@ -175,6 +187,7 @@ class AioRunner:
             obs["logs"] = sum(1 for r in self.handler.records if r.levelno >= logging.ERROR)
             obs["now"] = CLOCK.instant
             obs["task_errors"] = self.task_errors()
+            obs["trace"] = list(self.trace)
             obs_list.append(obs)
         # wind down: cancel what is left
         try:
